@@ -119,6 +119,10 @@ def main(argv=None):
                 if messy:
                     dist['surplus_lines'] += 1
                 lines.append(line.strip() or n)
+            if rng.random() < 0.15 and len(lines) > 1:
+                # a further header line in the body (a batch pasted together): it is content like any other segment
+                lines.insert(rng.randint(1, len(lines)), rng.choice([lines[0], c01.msh_line(m, v).replace('|A|B|', '|X|Y|')]))
+                dist['extra_header_lines'] = dist.get('extra_header_lines', 0) + 1
             text = '\r'.join(lines)
             in_lines = [l for l in text.split('\r') if l]
             dist['messages'] += 1
